@@ -1,6 +1,7 @@
 package props
 
 import (
+	"net"
 	"bytes"
 	"crypto/aes"
 	"crypto/cipher"
@@ -112,7 +113,7 @@ func independentOpen(key tls.TicketKey, ticket []byte) []byte {
 
 // C35 — Session tickets are authenticated and round-trip.
 func TestC35(t *testing.T) {
-	r := mon.New("C35", "session states harvested from real handshakes of several versions/suites (server and client side) with random Extra data x key sets of 1..4 keys x rotations; every single-bit flip and every truncation of sampled tickets; independent AES-CTR/HMAC-SHA256 open with TicketKeyFromBytes; forged ClientSessionState resumption. distinct = (state kind, key-set shape, check) combinations")
+	r := mon.New("C35", "session states harvested from real handshakes of several versions/suites (server and client side) with random Extra data x key sets of 1..4 keys x rotations; every single-bit flip and every truncation of sampled tickets; independent AES-CTR/HMAC-SHA256 open with TicketKeyFromBytes; forged ClientSessionState resumption (TLS 1.2 master secrets; TLS 1.3 PSKs of SHA-256 and SHA-384 suites) and field exactness of forged states for secrets of any length. distinct = (state kind, key-set shape, check) combinations")
 	defer r.Finish(t)
 	base := harvestStates(r)
 	r.Count("harvested_states", int64(len(base)))
@@ -304,6 +305,75 @@ func TestC35(t *testing.T) {
 		r.Case(fmt.Sprintf("forge|%s|%04x", id.Str(), suite), true)
 	}
 	r.Count("forged_resumptions", int64(forged))
+	// forged states carry exactly what they were given, whatever the secret's length (48-byte
+	// TLS 1.2 master secrets, 32- and 48-byte TLS 1.3 PSKs, anything else a caller hands in)
+	for i := 0; i < mon.Pick(200, 5000); i++ {
+		rg := Sub("C35forge-fields", i)
+		sec := randBytes(rg, []int{0, 1, 16, 31, 32, 33, 47, 48, 49, 64, 200}[rg.Intn(11)])
+		tick := randBytes(rg, 1+rg.Intn(300))
+		vers := []uint16{tls.VersionTLS10, tls.VersionTLS12, tls.VersionTLS13}[rg.Intn(3)]
+		suite := []uint16{tls.TLS_AES_128_GCM_SHA256, tls.TLS_AES_256_GCM_SHA384, tls.TLS_ECDHE_RSA_WITH_AES_128_GCM_SHA256, 0xffff}[rg.Intn(4)]
+		f := tls.MakeClientSessionState(append([]byte(nil), tick...), vers, suite, append([]byte(nil), sec...), nil, nil)
+		if rg.Intn(2) == 0 {
+			sec = randBytes(rg, []int{0, 32, 48, 33}[rg.Intn(4)])
+			f.SetMasterSecret(append([]byte(nil), sec...))
+		}
+		if !bytes.Equal(f.MasterSecret(), sec) || !bytes.Equal(f.SessionTicket(), tick) || f.Vers() != vers || f.CipherSuite() != suite {
+			r.Violation(map[string]string{"kind": "forged_state_fields"}, fmt.Sprintf("forged ClientSessionState reports secret %d bytes / ticket %d bytes / %#04x / %#04x, supplied %d / %d / %#04x / %#04x", len(f.MasterSecret()), len(f.SessionTicket()), f.Vers(), f.CipherSuite(), len(sec), len(tick), vers, suite), map[string]any{"case": i})
+		}
+		r.Case(fmt.Sprintf("forge-fields|%d|%04x", len(sec), vers), true)
+	}
+	// forged TLS 1.3 sessions: ticket, suite and PSK taken from a real session, everything else
+	// (creation time, use-by, age_add) chosen by the forger; SHA-256 and SHA-384 suites
+	forged13 := 0
+	for i := 0; i < mon.Pick(16, 120); i++ {
+		rg := Sub("C35forge13", i)
+		suite := []uint16{tls.TLS_AES_128_GCM_SHA256, tls.TLS_AES_256_GCM_SHA384, tls.TLS_CHACHA20_POLY1305_SHA256}[i%3]
+		id := []tls.ClientHelloID{tls.HelloGolang, tls.HelloChrome_100_PSK, tls.HelloChrome_112_PSK_Shuf}[(i/3)%3]
+		var key [32]byte
+		rg.Read(key[:])
+		scfg := peer.ServerConfig()
+		scfg.MinVersion = tls.VersionTLS13
+		scfg.SetSessionTicketKeys([][32]byte{key})
+		cache := newMapCache()
+		ccfg := peer.ClientConfig("example.test")
+		ccfg.ClientSessionCache = cache
+		ccfg.OmitEmptyPsk = true
+		h := peer.Run(ccfg, id, scfg, peer.Opts{ServerSetup: func(s *tls.Conn, _ net.Conn) { tls.VerifAttach(s, &tls.VerifPlan{ForceSuite13: suite}) }})
+		if !h.OK() || cache.Any() == nil || cache.Any().Vers() != tls.VersionTLS13 {
+			r.Note(fmt.Sprintf("forge13 setup failed: %s", h.ErrString()))
+			continue
+		}
+		orig := cache.Any()
+		psk := append([]byte(nil), orig.MasterSecret()...)
+		f := tls.MakeClientSessionState(append([]byte(nil), orig.SessionTicket()...), tls.VersionTLS13, orig.CipherSuite(), psk, orig.ServerCertificates(), orig.VerifiedChains())
+		now := peer.Now
+		f.SetCreatedAt(uint64(now.Unix()))
+		f.SetUseBy(uint64(now.Add(time.Hour).Unix()))
+		f.SetAgeAdd(rg.Uint32())
+		if !bytes.Equal(f.MasterSecret(), psk) {
+			r.Violation(map[string]string{"kind": "forged_state_fields"}, fmt.Sprintf("forged TLS 1.3 state reports a %d-byte secret, supplied %d", len(f.MasterSecret()), len(psk)), nil)
+		}
+		cache2 := newMapCache()
+		cache2.Put("example.test", f)
+		ccfg2 := peer.ClientConfig("example.test")
+		ccfg2.ClientSessionCache = cache2
+		ccfg2.OmitEmptyPsk = true
+		h2 := peer.Run(ccfg2, id, scfg, peer.Opts{ServerSetup: func(s *tls.Conn, _ net.Conn) { tls.VerifAttach(s, &tls.VerifPlan{ForceSuite13: suite}) }})
+		if !h2.OK() {
+			r.Violation(map[string]string{"kind": "forged_session_handshake_failed", "version": "0304"}, fmt.Sprintf("handshake with a forged TLS 1.3 ClientSessionState (%s, suite %#04x, %d-byte PSK) failed: %s", id.Str(), orig.CipherSuite(), len(psk), h2.ErrString()), map[string]any{"case": i})
+		} else if !h2.SState.DidResume || !h2.CState.DidResume {
+			r.Violation(map[string]string{"kind": "forged_session_not_resumed", "version": "0304"}, fmt.Sprintf("forged TLS 1.3 session (%s, suite %#04x) not resumed: client %v server %v", id.Str(), orig.CipherSuite(), h2.CState.DidResume, h2.SState.DidResume), map[string]any{"case": i})
+		} else {
+			forged13++
+			if h2.SState.CipherSuite != orig.CipherSuite() {
+				r.Violation(map[string]string{"kind": "forged_session_params", "version": "0304"}, fmt.Sprintf("resumed with suite %#04x, forged state says %#04x", h2.SState.CipherSuite, orig.CipherSuite()), nil)
+			}
+		}
+		r.Case(fmt.Sprintf("forge13|%s|%04x", id.Str(), orig.CipherSuite()), true)
+	}
+	r.Count("forged_tls13_resumptions", int64(forged13))
+	r.Floor("forged_tls13_resumptions", int64(mon.Pick(8, 60)))
 	// ---- histories over several Configs related by Clone ----
 	// Model: every Config owns its key list (Clone copies it); SetSessionTicketKeys replaces
 	// the list of that Config only; a ticket opens on a Config iff the key it was sealed under
